@@ -58,6 +58,12 @@ def run(ctx: Ctx) -> Result:
         else:
             for w in ("allow_only_kwargs", "allow_args"):
                 cases.append({"fn": "call", "kind": w, "wrapper": w, "sig": g["sig"], "call": g["call"]})
+            # the argument-normalising helpers are specified for complete, non-overlapping calls only
+            names = [p["name"] for p in g["sig"]]
+            kw = g["call"]["kw"]
+            if set(kw) <= set(names) and len(kw) + g["call"]["nargs"] == len(names) and not set(kw) & set(names[:g["call"]["nargs"]]):
+                for w in ("all_as_kwargs", "all_as_args", "convert_kwargs_to_args"):
+                    cases.append({"fn": "call", "kind": w, "wrapper": w, "sig": g["sig"], "call": g["call"]})
     for i, c in enumerate(cases):
         c["cid"] = i
     run_unit_cases(ctx, res, cases, chunk=400, sample_keys=("fn", "variant", "wrapper", "sig", "product", "joint", "call", "callmode", "leaves", "dense_first"),
